@@ -77,9 +77,9 @@ func Diff(d1, d2 string, o DiffOpts) (res *DiffResult) {
 	for _, e := range da.Errors() {
 		e := e
 		res.Errs = append(res.Errs, ErrInfo{Fatal: e.IsFatal(), Severe: e.IsSevere(),
-			Text: SafeErrText(func() string { return e.Error().Error() })})
+			Text: SafeErrText(func() string { return e.Error().Error() }), Loc: SafeErrText(func() string { return e.Location() })})
 	}
-	if cd == nil {
+	if cd == nil || err != nil { // on error the returned value may be a typed nil: nothing to read
 		return res
 	}
 	res.Raw = cd
